@@ -10,8 +10,11 @@ EXTENDS WriterObs
 RECURSIVE Unmarked(_, _, _)
 Unmarked(evs, marks, i) == IF i > Len(evs) THEN <<>>
                            ELSE (IF marks[i] THEN <<>> ELSE <<evs[i]>>) \o Unmarked(evs, marks, i + 1)
-Rel(with, without, marks) ==
-  IF Len(marks) # Len(with) THEN (IF \E i \in 1..Len(with) : with[i].res = "panic" THEN "C19: a writer call panicked" ELSE "C19: (driver) run cut short")
+\* optional[i]: the inserted call i is one the writer may also accept (no property demands its rejection - e.g. a Full
+\* item with the unknown-size option); if it is accepted the case says nothing about C19
+Rel(with, without, marks, optional) ==
+  IF Len(marks) = Len(with) /\ \E i \in 1..Len(with) : marks[i] /\ i <= Len(optional) /\ optional[i] /\ with[i].res = "ok" THEN ""
+  ELSE IF Len(marks) # Len(with) THEN (IF \E i \in 1..Len(with) : with[i].res = "panic" THEN "C19: a writer call panicked" ELSE "C19: (driver) run cut short")
   ELSE IF \E i \in 1..Len(with) : marks[i] /\ with[i].res \in {"ok", "io", "panic"} THEN "C19: a call that must be rejected was not rejected with a non-I/O error"
   ELSE LET common == Unmarked(with, marks, 1) IN
   IF Len(common) # Len(without) \/ \E i \in 1..Len(common) : common[i].res # without[i].res THEN "C19: calls after a rejected write do not behave as if it had never been made"
